@@ -243,6 +243,12 @@ fn gen_case(seed: u64, i: u64) -> Case {
                 Break::Missing => present = false,
                 Break::None => {}
             }
+            if matches!(brk, Break::ShortOld | Break::ShortNew) && r.bool() {
+                // pad the list with second signatures of the same keys, other signers in between:
+                // the COUNT of valid signatures reaches the threshold, the number of distinct keys does not
+                let again = signers.clone();
+                signers.extend(again);
+            }
             if brk == Break::VerLower {
                 // lower than the trusted version (v-1): needs v-1 > 1; otherwise it degenerates to "equal"
                 ver_field = if v >= 3 { v - 2 } else { v - 1 };
